@@ -46,13 +46,20 @@ func c14Int(c sdk.Coins, denom string) *big.Int { return c.AmountOf(denom).BigIn
 
 // VerifC14OracleAllocate: one oracle begin-block allocation from an arbitrary fee pool, vote set,
 // activity flags, reward percentage and community tax.
-func VerifC14OracleAllocate() { verifC14OracleAllocate(false) }
+func VerifC14OracleAllocate() { verifC14OracleAllocate(false, nil) }
+
+// VerifC14OracleBeginBlockWith: the same step driven through the module's BeginBlocker (passed in by the x/oracle
+// package: keeper cannot import it). The votes of the last commit carry an arbitrary block-id flag (commit / nil /
+// absent): like the distribution module, the allocation counts every validator of the last commit.
+func VerifC14OracleBeginBlockWith(step func(sdk.Context, Keeper, []abci.VoteInfo) error) {
+	verifC14OracleAllocate(false, step)
+}
 
 // VerifC14OracleShares: the same step and oracles with every validator registered and oracle-active, so that the
 // bound on the number of voters can be larger: decides the proportional split and its rounding.
-func VerifC14OracleShares() { verifC14OracleAllocate(true) }
+func VerifC14OracleShares() { verifC14OracleAllocate(true, nil) }
 
-func verifC14OracleAllocate(allActive bool) {
+func verifC14OracleAllocate(allActive bool, step func(sdk.Context, Keeper, []abci.VoteInfo) error) {
 	nVotes := vs.Param("votes")
 	nDenoms := vs.Param("denoms")
 	withPre := vs.Param("prestate") != 0
@@ -113,7 +120,11 @@ func verifC14OracleAllocate(allActive bool) {
 			power[i] = vs.I64("power")
 			vs.Assume(power[i] >= 0)
 			sumPower = new(big.Int).Add(sumPower, c14Big(power[i]))
-			votes = append(votes, abci.VoteInfo{Validator: abci.Validator{Address: venv.ConsAddr(i), Power: power[i]}})
+			vi := abci.VoteInfo{Validator: abci.Validator{Address: venv.ConsAddr(i), Power: power[i]}}
+			if step != nil {
+				vi.BlockIdFlag = cmtproto.BlockIDFlag(vs.Int("block_id_flag", 1, 3))
+			}
+			votes = append(votes, vi)
 		}
 	}
 	// CometBFT keeps the total voting power <= MaxInt64/8
@@ -173,7 +184,12 @@ func verifC14OracleAllocate(allActive bool) {
 	}
 
 	// ---- the step
-	err := k.AllocateTokens(ctx, votes)
+	var err error
+	if step != nil {
+		err = step(ctx, k, votes)
+	} else {
+		err = k.AllocateTokens(ctx, votes)
+	}
 
 	// ---- oracles
 	_ = c14Big
